@@ -90,11 +90,32 @@ Print Assumptions C44_ignore_lower.
    clause 3 (channels are released only by an update from above the active server - exactly the
    lower-priority ones - or all of them on the last cancel).  For every configuration and every
    op list, of any length, every clause except the registered finding clause 2 holds on the
-   model's own trace (invariant monitor state = model state, induction over the op list). *)
-Theorem C44_holds_on_every_model_trace : forall cfg ops,
+   model's own trace (invariant monitor state = model state, induction over the op list), for
+   every configuration [N] without a shared channel. *)
+Theorem C44_holds_on_every_model_trace : forall cfg ops, is_shared cfg = false ->
   exists obs, run cfg ops = Some obs /\ holds_core cfg ops obs = true.
-Proof. exact model_trace_holds. Qed.
+Proof. exact model_trace_holds_ns. Qed.
 Print Assumptions C44_holds_on_every_model_trace.
+
+(* Shared fallback channel (cfg [2; 1]: the channel to server 1 is also used by a second authority,
+   so releasing it does not tear it down).  "reverts to it, UNSUBSCRIBES and releases all
+   lower-priority servers": from any state in which the client is active on the shared server 1, an
+   update from server 0 releases the reference and leaves in server 1's subscription none of the
+   resources that were subscribed there for this authority, and every other name (the second
+   authority's) stays.  Clause 6 of the monitor ("after the revert server 1 is no longer asked for
+   names 0..2") is evaluated on every implementation trace of the shared configuration; its
+   history-level bridge theorem (forall ops, clause 6 holds on run [2;1] ops) is NOT proved - only
+   this step theorem is. *)
+Theorem C44_shared_revert_unsubscribes : forall s v rs s' o,
+  open (sv s 0) = true -> slive (sv s 0) = true -> active s = 1 -> open (sv s 1) = true ->
+  step_sh s (AResp 0 v rs) = (s', o) ->
+  open (sv s' 1) = false /\ active s' = 0 /\
+  (forall n, In n all_names -> mem 1 (chans (rq s n)) = true -> mem n (subs (sv s' 1)) = false) /\
+  (forall n, mem n (subs (sv s 1)) = true ->
+             (forall k, In k all_names -> mem 1 (chans (rq s k)) = true -> k <> n) ->
+             mem n (subs (sv s' 1)) = true).
+Proof. exact revert_sh_unsubscribes. Qed.
+Print Assumptions C44_shared_revert_unsubscribes.
 
 (* non-vacuity: fallback to s1 after s0 fails before any response, then s0 comes back and its
    first update releases s1 *)
